@@ -25,6 +25,7 @@ from . import common
 from .common import cps
 
 _S = {}
+LAST = {}
 CULTURES = ['en-us', 'es-es', 'fr-fr', 'de-de', 'pt-br', 'it-it']
 EXTRACTOR_ATTRS = ['date_extractor', 'time_extractor', 'duration_extractor', 'date_time_extractor',
                    'date_period_extractor', 'date_time_period_extractor']
@@ -395,6 +396,38 @@ def cm_in(c, L):
     return c is None or (0 <= c[0] and 0 <= c[1] and c[0] + c[1] <= L)
 
 
+def vstr():
+    v = _S.get('variant') or {}
+    return '%s:%s:%s' % (b(v.get('basicMatchStart')), b(v.get('mdtLenFixed')), b(v.get('rangeRstrip')))
+
+
+def probe_variants():
+    """which of the three repairs (findings/dtextract/*.diff) the working tree contains — decided on fixed probes
+    through the real English sub-extractors, never by reading the source"""
+    exs = dict(extractors('en-us'))
+    v = {'basicMatchStart': False, 'mdtLenFixed': False, 'rangeRstrip': False}
+    try:
+        t = exs['date_extractor'].basic_regex_match('15/12 and 5/12')
+        v['basicMatchStart'] = any((x.start, x.end) == (10, 14) for x in t)
+    except Exception:
+        pass
+    try:
+        exs['date_time_extractor'].merge_date_and_time('3 pm or later on monday', REF)
+        v['mdtLenFixed'] = True
+    except TypeError:
+        v['mdtLenFixed'] = False
+    except Exception:
+        pass
+    try:
+        t = exs['date_period_extractor'].merge_two_time_points('   from 4 jan to 5 jan', REF)
+        v['rangeRstrip'] = any(x.start == 3 for x in t)
+    except Exception:
+        pass
+    _S['rec'].frames.clear()
+    _S['rec'].stack.clear()
+    return v
+
+
 def conv_toks(fr, kind):
     """functions that are `Token(m.start(), m.end())` over every finditer match, in call order"""
     ms = [m for e in fr['log'] if e[0] == 're' and e[2] == 'finditer' for m in e[4]]
@@ -413,7 +446,7 @@ def conv_date_basic(fr):
             facts.append('%d:%d:%d:%s' % (idx, m.start(), m.end(), ocm(e[4])))
             hyp_ok = hyp_ok and 0 <= idx <= m.start() and mt_in(m, len(source)) and cm_in(e[4], idx)
             pending = None
-    return {'op': 'dx.basic\t' + lst(facts), 'hyp': {'BasicOK': hyp_ok}}
+    return {'op': 'dx.basic\t%s\t%s' % (vstr(), lst(facts)), 'hyp': {'BasicOK': hyp_ok}}
 
 
 def year_ok(ex, m):
@@ -767,7 +800,7 @@ def conv_dt_mdt(fr):
     d = next((e for e in log if e[0] == 'sub' and e[1] == 'date_point_extractor'), None)
     t = next((e for e in log if e[0] == 'sub' and e[1] == 'time_point_extractor'), None)
     if d is None or not d[4] or t is None:
-        return {'op': 'dx.mdt\t-\t-\t-', 'hyp': {}}
+        return {'op': 'dx.mdt\t%s\t-\t-\t-' % vstr(), 'hyp': {}}
     # the snapshot of the date list was taken before the code extended it with the time results
     ers = sorted(list(d[4][:len(d[4])]) + list(t[4]), key=lambda x: x[0])
     if any(x[3] not in (Constants.SYS_DATETIME_DATE, Constants.SYS_DATETIME_TIME) for x in ers):
@@ -775,10 +808,12 @@ def conv_dt_mdt(fr):
     gates, cur = [], None
     for e in log:
         if e[0] == 're' and e[1] == 'suffix_after_regex' and e[2] == 'search':
-            cur = {'raises': e[4] is not None, 'valid': False, 'yext': 0}
+            # no connector call behind a suffix-after match = the rest of the middle string was empty
+            cur = {'sa': e[4] is not None, 're': e[4] is not None, 'conn': False, 'yext': 0}
             gates.append(cur)
         elif e[0] == 'call' and e[1] == 'is_connector_token' and cur is not None:
-            cur['valid'] = bool(e[3])
+            cur['conn'] = bool(e[3])
+            cur['re'] = False
         elif e[0] == 'frame' and e[1]['kind'] == 'dt.ext' and cur is not None and e[1]['out'] is not None:
             cur['yext'] = e[1]['out'][0] - e[1]['args'][2]
             cur['yhyp'] = 0 <= cur['yext'] <= len(source) - e[1]['args'][2]
@@ -789,10 +824,10 @@ def conv_dt_mdt(fr):
         return {'problem': 'merge_date_and_time: %d suffix searches, %d prefix searches' % (len(suf), len(pre))}
     hyp = all(0 <= x[0] and 0 <= x[1] and x[0] + x[1] <= len(source) for x in ers) and \
         all(g.get('yhyp', True) for g in gates)
-    return {'op': 'dx.mdt\t%s\t%s\t%s' % (lst(['%d:%d:%s' % (x[0], x[1], b(x[3] == Constants.SYS_DATETIME_DATE)) for x in ers]),
-                                          lst(['%s:%s:%d' % (b(g['raises']), b(g['valid']), g['yext']) for g in gates]),
-                                          lst(wid or [])),
-            'hyp': {'MdtOK': hyp, 'gate_raises': sum(1 for g in gates if g['raises'])}}
+    return {'op': 'dx.mdt\t%s\t%s\t%s\t%s' % (vstr(), lst(['%d:%d:%s' % (x[0], x[1], b(x[3] == Constants.SYS_DATETIME_DATE)) for x in ers]),
+                                              lst(['%s:%s:%s:%d' % (b(g['sa']), b(g['re']), b(g['conn']), g['yext']) for g in gates]),
+                                              lst(wid or [])),
+            'hyp': {'MdtOK': hyp, 'suffix_after_gate': sum(1 for g in gates if g['sa'])}}
 
 
 def conv_dt_todb(fr):
@@ -880,28 +915,42 @@ def conv_dt_dwba(fr):
     return {'op': 'dx.ago\t%d\t%s' % (len(source), '|'.join(facts) if facts else '-'), 'hyp': {'AgoOK': hyp}}
 
 
-def pair_facts(log, n_from_to=True):
+def pair_facts(log, source):
+    """from / between look-ups: the index handed back is translated into a SOURCE offset with what the look-up string
+    lost on the left (nothing on a repaired tree, the leading blanks on the current one)"""
+    src_lead = len(source) - len(source.lstrip())
     facts, cur = [], None
+
+    def pos(arg, index):
+        lost = src_lead - (len(arg) - len(arg.lstrip())) if arg else 0
+        return index + lost
+
     for e in log:
         if e[0] == 'call' and e[1] == 'is_exact_match':
-            cur = {'till': bool(e[3]), 'conn': False, 'from': (False, -1), 'between': (False, -1), 'blen': None}
+            cur = {'till': bool(e[3]), 'conn': False, 'from': (False, -1), 'between': (False, -1), 'blen': None,
+                   'lead': src_lead}
             facts.append(cur)
         elif cur is None:
             continue
         elif e[0] == 'call' and e[1] == 'has_connector_token':
             cur['conn'] = bool(e[3])
         elif e[0] == 'call' and e[1] == 'get_from_token_index':
-            cur['from'] = (bool(e[3].matched), e[3].index)
-            cur['blen'] = len(e[2])
+            cur['from'] = (bool(e[3].matched), pos(e[2], e[3].index) if e[3].matched else -1)
+            cur['blen'] = pos(e[2], len(e[2]))
         elif e[0] == 'call' and e[1] == 'get_between_token_index':
-            cur['between'] = (bool(e[3].matched), e[3].index)
-            cur['blen'] = len(e[2])
+            cur['between'] = (bool(e[3].matched), pos(e[2], e[3].index) if e[3].matched else -1)
+            cur['blen'] = pos(e[2], len(e[2]))
     return facts
 
 
 def fmt_pairs(facts):
-    return lst(['%s:%s:%s:%d:%s:%d:0:-1' % (b(f['till']), b(f['conn']), b(f['from'][0]), f['from'][1],
-                                            b(f['between'][0]), f['between'][1]) for f in facts])
+    return lst(['%s:%s:%s:%d:%s:%d:0:-1:%d' % (b(f['till']), b(f['conn']), b(f['from'][0]), f['from'][1],
+                                               b(f['between'][0]), f['between'][1], f['lead']) for f in facts])
+
+
+def pair_hyp(facts):
+    return all((not f['from'][0] or f['lead'] <= f['from'][1] <= (f['blen'] or 0)) and
+               (not f['between'][0] or f['lead'] <= f['between'][1] <= (f['blen'] or 0)) for f in facts)
 
 
 def conv_dp_merge(fr):
@@ -909,12 +958,10 @@ def conv_dp_merge(fr):
     if ex.config.check_both_before_after:
         return {'skipped': 'check_both_before_after is set'}
     ers = fr['ers']
-    facts = pair_facts(fr['log'])
+    facts = pair_facts(fr['log'], source)
     hyp = all(0 <= s and 0 <= l and s + l <= len(source) for s, l in ers) and \
-        all(ers[i][0] <= ers[i + 1][0] for i in range(len(ers) - 1)) and \
-        all((not f['from'][0] or 0 <= f['from'][1] <= (f['blen'] or 0)) and
-            (not f['between'][0] or 0 <= f['between'][1] <= (f['blen'] or 0)) for f in facts)
-    return {'op': 'dx.range\td\t%s\t-\t%s' % (lst(['%d:%d' % x for x in ers]), fmt_pairs(facts)),
+        all(ers[i][0] <= ers[i + 1][0] for i in range(len(ers) - 1)) and pair_hyp(facts)
+    return {'op': 'dx.range\t%s\td\t%s\t-\t%s' % (vstr(), lst(['%d:%d' % x for x in ers]), fmt_pairs(facts)),
             'hyp': {'RangeOK': hyp, 'from_between_used': sum(1 for f in facts if (f['till'] and (f['from'][0] or f['between'][0])) or
                                                              (not f['till'] and f['conn'] and f['between'][0]))}}
 
@@ -945,11 +992,11 @@ def conv_dtp_merge(fr):
     tp = sorted(tp, key=lambda x: x.start)
     # only the part of the log before the time-period extractor is asked belongs to the first loop
     cut = next((i for i, e in enumerate(fr['log']) if e[0] == 'sub' and e[1] == 'time_period_extractor'), len(fr['log']))
-    facts = pair_facts(fr['log'][:cut])
+    facts = pair_facts(fr['log'][:cut], source)
     skips = [str(i) for i in range(len(tp) - 1)
              if tp[i].type == Constants.SYS_DATETIME_TIME and tp[i + 1].type == Constants.SYS_DATETIME_TIME]
-    return {'op': 'dx.range\tdt\t%s\t%s\t%s' % (lst(['%d:%d' % (e.start, e.length) for e in tp]), lst(skips), fmt_pairs(facts)),
-            'first_loop_only': True, 'hyp': {'from_between_used': sum(1 for f in facts if f['from'][0] or f['between'][0])}}
+    return {'op': 'dx.range\t%s\tdt\t%s\t%s\t%s' % (vstr(), lst(['%d:%d' % (e.start, e.length) for e in tp]), lst(skips), fmt_pairs(facts)),
+            'first_loop_only': True, 'hyp': {'RangeOK': pair_hyp(facts), 'from_between_used': sum(1 for f in facts if f['from'][0] or f['between'][0])}}
 
 
 def conv_dp_mdur(fr):
@@ -1082,6 +1129,7 @@ def _init_worker():
         recog.recognizers()
         _S['recog'] = recog
         _S['ex'] = {}
+        _S['variant'] = probe_variants()
         signal.signal(signal.SIGALRM, _on_alarm)
     except BaseException as e:
         import traceback
@@ -1147,7 +1195,7 @@ def _chunk(args):
             rec.frames.clear()
     keep = ('kind', 'op', 'impl', 'src', 'hyp', 'problem', 'skipped', 'task', 'ext', 'n_results', 'tokens_inside',
             'tokens', 'impl_prefix_of')
-    return [{k: o[k] for k in keep if k in o} for o in out], dropped
+    return [{k: o[k] for k in keep if k in o} for o in out], dropped, dict(_S.get('variant') or {})
 
 
 # ------------------------------------------------------------------ inputs
@@ -1211,6 +1259,7 @@ def build_tasks(ctx, tasks):
 
 def unit_ops(tasks, nproc=16, timeout=15.0):
     if not tasks:
+        LAST['variants'] = []
         return [], 0
     by_cul = {}
     for t in tasks:
@@ -1231,9 +1280,13 @@ def unit_ops(tasks, nproc=16, timeout=15.0):
         pool.terminate()
         pool.join()
     ops, dropped = [], 0
-    for part, d in parts:
+    variants = []
+    for part, d, v in parts:
         ops.extend(part)
         dropped += d
+        if v not in variants:
+            variants.append(v)
+    LAST['variants'] = variants
     return ops, dropped
 
 
@@ -1241,11 +1294,16 @@ def unit_ops(tasks, nproc=16, timeout=15.0):
 
 WITNESSES = [
     # (driver line, expected model answer, what it shows)
-    ('dx.range\td\t2:5,13:5\t-\t1:0:1:6:0:-1:0:-1', '6:18',
-     'from-index-into-stripped-prefix: "  today from 4 jan to 5 jan" -> the range token starts inside "today"'),
-    ('dx.range\tt\t0:3,7:3\t-\t1:0:0:-1:0:-1:1:0', '0:0',
+    ('dx.range\t0:0:0\td\t13:5,22:5\t-\t1:0:1:8:0:-1:0:-1:2', '6:27',
+     'PRE-FIX from-index-into-stripped-prefix: "  today from 4 jan to 5 jan" -> the range token starts inside "today"'),
+    ('dx.range\t0:0:1\td\t13:5,22:5\t-\t1:0:1:8:0:-1:0:-1:2', '8:27', 'repaired: the range token starts at "from"'),
+    ('dx.range\t0:0:0\tt\t0:3,7:3\t-\t1:0:0:-1:0:-1:1:0:0', '0:0',
      'time period: "between" found after the range replaces the end by an index into the suffix'),
     ('dx.reldur\t30\t-\t0/5/0/1:20:2:1/1/0', '20:5', 'in-prefix connector searched in the text AFTER the duration: reversed token'),
+    ('dx.basic\t0:0:0\t0:0:5:0:0:0:0,1:10:14:0:0:0:0', '0:5,1:5', 'PRE-FIX "15/12 and 5/12": second token at the first occurrence'),
+    ('dx.basic\t1:0:0\t0:0:5:0:0:0:0,1:10:14:0:0:0:0', '0:5,10:14', 'repaired: both dates'),
+    ('dx.mdt\t0:0:0\t0:4:0,17:6:1\t1:0:1:0\t0:0:0:0:0:0', 'err:TypeError', 'PRE-FIX "3 pm or later on monday": len(<int>)'),
+    ('dx.mdt\t0:1:0\t0:4:0,17:6:1\t1:0:1:0\t0:0:0:0:0:0', '0:23', 'repaired: the date-time token'),
 ]
 
 
@@ -1279,7 +1337,11 @@ def run(ctx, prop, tasks=None):
     replay_witnesses(ctx)
     my = build_tasks(ctx, tasks)
     ops, dropped = unit_ops(my)
-    ctx.extra['dtextract'] = {'queries': len(my), 'dropped_timeouts': dropped, 'cultures': CULTURES}
+    ctx.extra['dtextract'] = {'queries': len(my), 'dropped_timeouts': dropped, 'cultures': CULTURES,
+                              'tree_variant': LAST.get('variants')}
+    if len(LAST.get('variants') or []) > 1:
+        ctx.report('correspondence', 'dtextract-variant-probe', 'workers disagree on the variant of the tree: %r' % LAST['variants'],
+                   failing_input={'variants': LAST['variants']}, property_fails=False)
     lines, live = [], []
     for o in ops:
         if o.get('skipped'):
@@ -1362,13 +1424,26 @@ def run(ctx, prop, tasks=None):
     ctx.extra['dtextract']['wall_s'] = round(time.time() - t0, 1)
 
 
+LEADING_BLANK_PROBES = [
+    # (signature, culture, query)
+    ('range-prefix-index-leading-blank', 'en-us', '  today from 4 jan to 5 jan'),
+    ('range-prefix-index-leading-blank', 'en-us', '  now between 4 jan and 5 jan'),
+    ('range-prefix-index-leading-blank', 'en-us', '  tomorrow from 3pm to friday 5pm'),
+    # BaseDateTimePeriodExtractor.match_simple_cases matches on `source.strip().lower()` and uses the match offsets as
+    # source offsets (findings/dtextract/simple-cases-leading-blank.diff)
+    ('simple-cases-leading-blank', 'en-us', '  today from 3pm to 4pm'),
+]
+
+
 def leading_blank_followup(ctx, prop):
-    """the from / between index is an index into the STRIPPED prefix (witness theorem `range_from_leading_blank`): with
-    leading blanks the range token starts too early and can cut into the entity before it."""
+    """indices taken in a left-stripped string and used as source offsets (witness theorem `range_from_leading_blank`):
+    with leading blanks the range token starts too early and cuts into the entity before it"""
     from . import spanpipe
     common.setup_repo_imports()
-    for cul, q in (('en-us', '  today from 4 jan to 5 jan'), ('en-us', '  today from 3pm to 4pm'),
-                   ('en-us', '  now between 4 jan and 5 jan')):
+    done = set()
+    for sig, cul, q in LEADING_BLANK_PROBES:
+        if sig in done:
+            continue
         try:
             spans = pipeline_spans(cul, q, REF)
         except Exception:
@@ -1376,21 +1451,15 @@ def leading_blank_followup(ctx, prop):
         ctx.count('dtextract:leading-blank-pipeline')
         if prop == 'C12':
             bad = spanpipe.overlaps(spans)
-            if bad:
-                ctx.report('property', 'range-prefix-index-leading-blank',
-                           '%s %r: entities %r overlap (from/between index taken in the stripped prefix)' % (cul, q, spans),
-                           failing_input={'culture': cul, 'query': q, 'reference': REF.isoformat(), 'entities': spans},
-                           property_fails=True)
-                return
+            detail = 'entities %r overlap' % (spans,)
         else:
-            for (s, e, tx, ty) in spans:
-                why = spanpipe.span_ok(q, s, e, tx)
-                if why:
-                    ctx.report('property', 'range-prefix-index-leading-blank',
-                               '%s %r: entity %r: %s' % (cul, q, (s, e, tx, ty), why),
-                               failing_input={'culture': cul, 'query': q, 'reference': REF.isoformat(), 'entities': spans},
-                               property_fails=True)
-                    return
+            bad = [(sp, why) for sp in spans for why in [spanpipe.span_ok(q, sp[0], sp[1], sp[2])] if why]
+            detail = 'entities %r: %r' % (spans, bad)
+        if bad:
+            done.add(sig)
+            ctx.report('property', sig, '%s %r: %s (an index into a left-stripped string used as a source offset)' % (cul, q, detail),
+                       failing_input={'culture': cul, 'query': q, 'reference': REF.isoformat(), 'entities': spans},
+                       property_fails=True)
 
 
 if __name__ == '__main__':
